@@ -38,6 +38,7 @@ def run(ctx):
         for g in ("ed53", "ed109", "ed149"):
             Q = TOY_CURVES[g][0]
             model(ctx, g, sorted({1, 2, Q - 1, ctx.rng.randrange(3, Q - 1), ctx.rng.randrange(3, Q - 1)}))
+        model(ctx, "ed1013", [1, 1012])        # a 1048-point curve: 1.1 million point pairs, two scalings
     else:
         model(ctx, "ed37", [1, 2, 36, 3 + ctx.seed % 30])
         model(ctx, "ed53", [1, 52])
